@@ -656,6 +656,21 @@ example : (receive env m lk ⟨pidIpv4, goodUdp⟩).toOption.map (fun r => r.eff
     some [some { app := 10, payload := [0xab], loc := ⟨167772161, 5000⟩,
                  rem := ⟨167772162, 6000⟩, slot := 0 }] := by decide +kernel
 
+/-- F-C14-S3 witness: total length 29 (one payload octet), UDP length 10, and a second "payload" octet
+    behind the end of the IPv4 datagram -/
+def udpLenBeyondDatagram : Bytes :=
+  [0x45, 0, 0, 29, 0, 0, 0, 0, 30, 17, 0, 0, 10, 0, 0, 2, 10, 0, 0, 1,
+   0x17, 0x70, 0x13, 0x88, 0, 10, 0, 0, 0xab, 0xcd]
+
+/-- F-C14-S3 (the code as it is): `Ipv4::demux` hands up every octet behind the header whatever the
+    total length says, so a UDP length field that claims an octet beyond the IPv4 datagram matches
+    what `Udp::demux` is given and the application receives `[0xab, 0xcd]` — the second octet is not
+    part of the datagram (RFC 791: the datagram ends at the total length) -/
+theorem c14_udp_length_beyond_datagram_counterexample :
+    (receive env m lk ⟨pidIpv4, udpLenBeyondDatagram⟩).toOption.map (fun r => r.effects.map delivered) =
+      some [some { app := 10, payload := [0xab, 0xcd], loc := ⟨167772161, 5000⟩,
+                   rem := ⟨167772162, 6000⟩, slot := 0 }] := by decide +kernel
+
 /-- the UDP decoder rejects the second frame, and the theorem's premises hold for it -/
 example : ∃ hd e, ReachesTransport env m badUdpLen hd pidUdp ∧
     Udp.fromBytes env.ck (badUdpLen.drop 20) (badUdpLen.drop 20).length hd.source hd.destination = .error e := by
